@@ -64,6 +64,7 @@ def run(ctx):
         for (bi, t) in field_receiver_calls(F, b, "LeaderState", "pending_reads", r"BTreeMap::(entry|insert)$"):
             ins.append((b, bi, t))
     ctx.floor("C11-a", len(ins), 1, "insertions into LeaderState.pending_reads")
+    ctx.note("C11-a: %d insertion site(s) into pending_reads examined for leadership evidence" % len(ins))
     ins_ev = []
     for (b, bi, t) in ins:
         ok, wit, _ = guarded_by(b, bi, lambda c: evidence(F, c) is not None, edge_conditions(b))
